@@ -246,6 +246,55 @@ def rule_lock_discipline(ctx, rep, rid, methods=('emit', 'flush')):
                    'guard dropped after the writer call' if not early and drops else 'the lock guard is released before the writer call')
 
 
+def rule_writer_only_in_emit_flush(ctx, rep, rid='G3'):
+    """A buffered sink reaches its line writer only from its own emit / flush (constructors build it, drop glue and
+    Debug are not writes): no other method - stats(), a new accessor - locks it, and none calls the sink's own
+    emit/flush, so nothing else can put bytes on the socket."""
+    cad = ctx.cad
+    for adt, field, adapter in buffered_sinks(cad):
+        name = adt.rsplit('::', 1)[-1]
+        impl = [i for i in cad.impls_of(SINK_TRAIT) if i.get('self_adt') == adt]
+        own = set()
+        for i in impl:
+            for it in i['items']:
+                if it['name'] in ('emit', 'flush'):
+                    own.add(it['path'])
+        bad = []
+        for b in cad.all_bodies:
+            if b.path in own or b.file.endswith('/test.rs') or '::tests::' in b.path:
+                continue
+            is_method = b.impl_self and type_head(b.impl_self) == adt
+            if not is_method:
+                continue
+            if b.impl_trait and ('fmt::Debug' in b.impl_trait or b.impl_trait.endswith('Drop')):
+                continue
+            ctor = type_head(b.locals[0]) == adt or adt in b.locals[0]
+            for bi, blk in enumerate(b.blocks):
+                if blk['cleanup']:
+                    continue
+                for s in blk['stmts']:
+                    if s['k'] != 'assign':
+                        continue
+                    places = [s['place']]
+                    rv = s['rv']
+                    if 'place' in rv:
+                        places.append(rv['place'])
+                    for key in ('op', 'a', 'b'):
+                        o_ = rv.get(key)
+                        if isinstance(o_, dict) and o_.get('k') in ('copy', 'move'):
+                            places.append(o_['place'])
+                    for pl in places:
+                        if any(e[0] == 'field' and e[2] == field and MLW in str(e[3]) for e in pl['p']) and not ctor:
+                            bad.append((b, bi, 'touches the line writer'))
+                t_ = blk['term']
+                if t_['k'] == 'call' and t_.get('resolved') in own:
+                    bad.append((b, bi, 'calls the sink\'s own %s' % t_['resolved'].rsplit('::', 1)[-1]))
+        rep.sites()
+        rep.ob(rid, '%s/writer-only-in-emit-flush' % name, not bad, bad[0][0].where(bad[0][1]) if bad else '',
+               'only emit()/flush() of %s reach the line writer' % name if not bad else
+               '%s %s: the socket can be written outside an emit that must, an explicit flush or drop' % (bad[0][0].short(), bad[0][2]))
+
+
 def rule_D2(ctx, rep, rid='D2'):
     cad = ctx.cad
     bs = cad.method('cadence::client::StatsdClient', 'flush')
